@@ -91,6 +91,16 @@ def run(ck):
     g = ck.tlc("PrecGen", constants=consts, workers=4, count=False, timeout=1200)
     if "GENERATED" not in g.out:
         raise vp.Infra("PrecGen failed:\n" + g.out[-2000:])
+    if not quick:
+        # every sequence of up to three directives, and a seeded sample of the 15 120 sequences of four (all of them, with the
+        # grammar as it is now, keep PrecCheck busy for more than its hour)
+        gp = os.path.join(ck.work, "tla", "gen_specs.ndjson")
+        rows = vp.read_ndjson(gp)
+        small = [x for x in rows if sum(1 for d in x["decls"] if d["k"] == "dir") <= 3]
+        big = [x for x in rows if sum(1 for d in x["decls"] if d["k"] == "dir") > 3]
+        import random
+        random.Random(ck.seed).shuffle(big)
+        vp.write_ndjson(gp, small + big[:4000])
     arts = export(ck)
     ck.log("%d specifications exported" % len(arts))
     if ck.args.selftest:
